@@ -443,7 +443,11 @@ pub fn search_bridge(rng: &mut Rng, rounds: usize) -> Option<Cex> {
             Message::Hello(own), Message::RequestOperation(own, Operation::ReceiveConfig),
             Message::SendData(Offset(0), Data::try_new(t.to_bytes().to_vec()).unwrap()), Message::DataChunksSent(ChunkCount(1)), Message::QueryState(own),
             Message::RequestOperation(own, Operation::ReceivePixels), Message::SendData(Offset(0), Data::try_new(vec![rng.next() as u8; 16]).unwrap()),
-            Message::DataChunksSent(ChunkCount(1)), Message::QueryState(own), Message::PixelsComplete(own), Message::QueryState(Address(4)), Message::Goodbye(own),
+            Message::DataChunksSent(ChunkCount(1)), Message::QueryState(own), Message::PixelsComplete(own), Message::QueryState(Address(4)),
+            // frames of the maximum legal length (255 data bytes = a 523-character line) and just below
+            Message::RequestOperation(own, Operation::ReceivePixels), Message::SendData(Offset(0), Data::try_new(vec![rng.next() as u8; 255]).unwrap()),
+            Message::SendData(Offset(255), Data::try_new(vec![rng.next() as u8; 128]).unwrap()), Message::DataChunksSent(ChunkCount(2)), Message::QueryState(own),
+            Message::Goodbye(own),
         ];
         for m in script {
             lines.push(Frame::from(m).to_bytes_with_newline());
@@ -455,11 +459,15 @@ pub fn search_bridge(rng: &mut Rng, rounds: usize) -> Option<Cex> {
                 _ => {}
             }
         }
+        // the whole conversation is already waiting on the port: each call must consume exactly ONE line of it
         for line in &lines {
-            let input = format!("bridge line {:?}", String::from_utf8_lossy(line));
             port.borrow_mut().inbound.extend(line.iter().copied());
+        }
+        for line in &lines {
+            let input = format!("bridge line {:?}", String::from_utf8_lossy(&line[..line.len().min(60)]));
             port.borrow_mut().written.clear();
             let calls_before = *calls.borrow();
+            let waiting_before = port.borrow().inbound.len();
             let r = catch_unwind(AssertUnwindSafe(|| odk.process_message()));
             let r = match r { Err(_) => return Some(Cex { domain: "bridge", input, expected: "no panic".into(), actual: "panic".into() }), Ok(r) => r };
             match Frame::from_bytes(line) {
@@ -480,6 +488,10 @@ pub fn search_bridge(rng: &mut Rng, rounds: usize) -> Option<Cex> {
             }
             if sign_sig(&a.borrow()) != sign_sig(&b) {
                 return Some(Cex { domain: "bridge", input, expected: sign_sig(&b), actual: sign_sig(&a.borrow()) });
+            }
+            let consumed = waiting_before - port.borrow().inbound.len();
+            if consumed != line.len() {
+                return Some(Cex { domain: "bridge", input, expected: format!("exactly this line ({} bytes) consumed", line.len()), actual: format!("{} bytes consumed", consumed) });
             }
         }
     }
